@@ -1,13 +1,13 @@
 package main
 
 import (
-	"os"
-	"sync"
 	"fmt"
-	"sort"
 	"go/token"
 	"go/types"
+	"os"
+	"sort"
 	"strings"
+	"sync"
 
 	"golang.org/x/tools/go/ssa"
 )
@@ -753,7 +753,6 @@ func loopHasCtxCall(fn *ssa.Function, l *Loop) bool {
 }
 
 var _ = token.ADD
-
 
 // ---------------------------------------------------------------- bits mode (engine E2) call models
 
